@@ -70,8 +70,16 @@ def report(S):
     del FOUND[:]
 
 
-def run(S, want_witness=True):
+def run(S, want_witness=True, collect=None):
     del FOUND[:]
+
+    def note(viol):
+        for lab, mdl, info in viol:
+            if lab.startswith('C17:') and collect is not None:
+                collect.append((lab, info))
+            else:
+                FOUND.append(lab)
+
     core = S.core
     contracts = _contracts()
     f_inspect = S.find_fn(core, 'Typstyle::format_source_inspect')
@@ -157,8 +165,7 @@ def run(S, want_witness=True):
 
     ob, ex = S.explore('lib.format_source_inspect', 'Err iff root.erroneous(); Ok value = strip(render(convert_markup(root), cfg.max_width))',
                        body_inspect, bounds=dict(config='all 64-bit tab/width/blank, both reorder values', erroneous='symbolic'))
-    for lab, mdl, info in ex.violations:
-        FOUND.append(lab)
+    note(ex.violations)
     if want_witness:
         S.require_witness(ob, ['refused', 'accepted'])
 
@@ -187,8 +194,7 @@ def run(S, want_witness=True):
             check_ok_value(ctx, rec, res, cfg, 'content')
 
     ob, ex = S.explore('lib.format_content', 'format_content(c) = format_source_inspect(Source::detached(c), no-op)', body_content)
-    for lab, mdl, info in ex.violations:
-        FOUND.append(lab)
+    note(ex.violations)
 
     # (c) format_with_width ----------------------------------------------------------------
     def body_width(ctx):
@@ -216,8 +222,7 @@ def run(S, want_witness=True):
             ctx.witness('formatted')
 
     ob, ex = S.explore('lib.format_with_width', 'format_with_width(c,w) = c if erroneous else format with Config{max_width:w, defaults}', body_width)
-    for lab, mdl, info in ex.violations:
-        FOUND.append(lab)
+    note(ex.violations)
     if want_witness:
         S.require_witness(ob, ['fallback', 'formatted'])
     report(S)
